@@ -144,6 +144,13 @@ def task_spec(draw, focus="timing"):
         draw(request_spec(services, errors=errors, weights=weights, units=units, multi_wire=(focus == "timing"), runner_tp=runner_tp, shapes=shapes))
         for _ in range(n_specs)
     ]
+    if "global_offset" not in spec and draw(st.integers(0, 5)) == 0:
+        # the task is a later member of an over-committed parallel element (fewer clients than its tasks ask for): its clients run it in a
+        # later round on client ids that differ from their global client index; allocations from the real Allocator
+        spec["global_offset"] = draw(st.integers(1, 3))
+        spec["total_clients"] = spec["global_offset"] + spec["clients"] + draw(st.integers(0, 2))
+        spec["via_allocator"] = draw(st.sampled_from([1, -1, -4]))
+        spec["allocator_cap"] = True
     return spec
 
 
